@@ -123,6 +123,24 @@ def run_case(kind, p):
             if not np.array_equal(d[k], ref):
                 msgs.append(f"template {template.shape} offset ({oy},{ox}) image {sy}x{sx} layer {k}: "
                             f"{d[k].tolist()} expected {ref.tolist()}")
+        # the stack as it is used (layer selection, sum over layers, application to a frame as a sparse matrix), not only
+        # its dense form
+        try:
+            for k in idx:
+                if not np.array_equal(np.asarray(st[k].todense()), d[k]):
+                    msgs.append(f"mask_index {idx}: stack[{k}] differs from layer {k} of stack.todense()")
+                    break
+            tot = np.asarray(st.sum(axis=0).todense())
+            if not np.allclose(tot, d.sum(axis=0), rtol=0, atol=1e-9):
+                msgs.append(f"mask_index {idx}: stack.sum(axis=0) differs from the sum of the dense layers")
+            fr = np.arange(1, sy * sx + 1, dtype=np.float64)
+            got = np.asarray(st.reshape((d.shape[0], -1)).tocsr() @ fr).ravel()
+            want = d.reshape(d.shape[0], -1).astype(np.float64) @ fr
+            if not np.allclose(got, want, rtol=1e-12, atol=1e-9):
+                msgs.append(f"mask_index {idx}: the stack applied to a frame as a sparse matrix gives {got.tolist()}, the dense "
+                            f"layers give {want.tolist()}")
+        except Exception as e:
+            msgs.append(f"using the stack raised {type(e).__name__}: {e}")
     elif kind == "feature_vector":
         pat = impl.pattern_from(p["pattern"])
         peaks = np.asarray(p["peaks"])
